@@ -35,6 +35,8 @@ inductive DOp where
   | core (op : Op) | upd (o : List CP) | dupd (o : List CP)
   | iorl (o : List CP) | isubl (o : List CP) | iandl (o : List CP) | ixorl (o : List CP)
   | upds (s : List Nat) | dupds (s : List Nat)   -- update / difference_update with a character-subset string
+  | rsubl (o : List CP)                           -- `iterable - self` (reflected difference)
+  | selfop (k : Nat)                              -- `s |= s` (0), `s -= s` (1), `s &= s` (2), `s ^= s` (3)
 
 def dstep (l : List CP) : DOp → List CP
   | .upds s => (updateStr l s.toArray).getD l        -- error case handled by `dstepErr`
@@ -46,6 +48,11 @@ def dstep (l : List CP) : DOp → List CP
   | .isubl o => isubList l o
   | .iandl o => iandList l o
   | .ixorl o => ixorList l o
+  | .rsubl o => rsubList l o
+  | .selfop 0 => iorSelf l
+  | .selfop 1 => isubSelf l
+  | .selfop 2 => iandSelf l
+  | .selfop _ => ixorSelf l
 
 def parseOp (s : String) : Option DOp :=
   match s.trimAscii.toString.splitOn " " with
@@ -57,6 +64,11 @@ def parseOp (s : String) : Option DOp :=
   | ["isubl", e] => (parseEntries e).map .isubl
   | ["iandl", e] => (parseEntries e).map .iandl
   | ["ixorl", e] => (parseEntries e).map .ixorl
+  | ["rsubl", e] => (parseEntries e).map .rsubl
+  | ["iorself", _] => some (.selfop 0)
+  | ["isubself", _] => some (.selfop 1)
+  | ["iandself", _] => some (.selfop 2)
+  | ["ixorself", _] => some (.selfop 3)
   | other => (parseCore other).map .core
 where parseCore : List String → Option Op
   | ["add", e] => (parseEntry e).map .add
@@ -75,6 +87,9 @@ def opSafe (l : List CP) : DOp → Bool
   | .upds s => foldSafe l (iterCodePoints true ((iterparse s.toArray).getD []))
   | .dupds _ => true
   | .dupd _ | .isubl _ | .iandl _ => true
+  | .rsubl o => foldSafe [] (iterCodePoints true o)
+  | .selfop 0 => (l.reverse.foldl (fun (acc : List CP × Bool) v => (add v acc.1, acc.2 && addSafe v acc.1)) (l, true)).2
+  | .selfop _ => true
   | .ixorl o => ((iter (ofList o)).foldl (fun (acc : List CP × Bool) n =>
       if contains n acc.1 then (discard (.one n) acc.1, acc.2)
       else (add (.one n) acc.1, acc.2 && addSafe (.one n) acc.1)) (l, true)).2
@@ -88,7 +103,8 @@ where coreSafe : Op → Bool
   | _ => true
 
 def argsValid : DOp → Bool
-  | .upd o | .dupd o | .iorl o | .isubl o | .iandl o | .ixorl o => o.all CP.validArg
+  | .upd o | .dupd o | .iorl o | .isubl o | .iandl o | .ixorl o | .rsubl o => o.all CP.validArg
+  | .selfop _ => true
   | .upds _ | .dupds _ => true
   | .core op => coreValid op
 where coreValid : Op → Bool
@@ -130,6 +146,9 @@ def answer (line : String) : String :=
             | .dupd o | .isubl o => sx && !decide (memL x o)
             | .iandl o => sx && decide (memL x o)
             | .ixorl o => (sx && !decide (memL x o)) || (!sx && decide (memL x o))
+            | .rsubl o => decide (memL x o) && !sx
+            | .selfop 0 | .selfop 2 => sx
+            | .selfop _ => false
             | .core op =>
             match op with
             | .add v => sx || decide (v.mem x)
